@@ -24,10 +24,27 @@ REG.contract("opaque:h5obj.attrs", assumed=True, note="property", params=dict(se
              ensures=["attrs_owner(result) == h5obj_id(self)"])
 REG.contract("opaque:h5attrs.__contains__", assumed=True, params=dict(self=OpaqueOf("h5attrs"), key=Str), result=Bool,
              ensures=["result == (not is_none(attr(attrs_owner(self), key)))"])
+_MODIFIED = z3.Function("h5_modify_converted", Val, Val, Val)
+
+
+@REG.specfunc()
+def modified_value(ex, p, stored, new):
+    """what is readable after AttributeManager.modify: the new value converted to the type of the STORED value (identical
+    to the new value when both have the same kind; otherwise some conversion of it, e.g. a fraction truncated to an integer)"""
+    a, b = box(ex.deref(p, stored)), box(ex.deref(p, new))
+    same_kind = z3.Or(*[z3.And(t(a), t(b)) for t in (Val.is_VInt, Val.is_VReal, Val.is_VBool, Val.is_VStr, Val.is_VBytes)])
+    text = lambda v: z3.If(Val.is_VBytes(v), Val.bs(v), Val.s(v))
+    both_text = z3.And(z3.Or(Val.is_VStr(a), Val.is_VBytes(a)), z3.Or(Val.is_VStr(b), Val.is_VBytes(b)))
+    # text over text keeps the characters (in the stored flavour: fixed bytes or variable-length text)
+    as_stored_text = z3.If(Val.is_VStr(a), Val.VStr(text(b)), Val.VBytes(text(b)))
+    return VDyn(z3.If(same_kind, b, z3.If(both_text, as_stored_text, _MODIFIED(a, b))))
+
+
 REG.contract("opaque:h5attrs.modify", assumed=True, params=dict(self=OpaqueOf("h5attrs"), key=Str, value=Dyn),
              modifies=["attr"],
-             ensures=["same(sigma('attr'), attr_set(old(sigma('attr')), attrs_owner(self), key, value))"],
-             note="AttributeManager.modify: replaces the value of an existing attribute")
+             ensures=["same(sigma('attr'), attr_set(old(sigma('attr')), attrs_owner(self), key, "
+                      "modified_value(old(attr(attrs_owner(self), key)), value)))"],
+             note="AttributeManager.modify: overwrites an existing attribute IN PLACE, keeping its stored type")
 REG.contract("np.bytes_", assumed=True, params=dict(s=Str), result=Bytes, result_expr="as_bytes(s)")
 REG.contract("nixio.util.util.create_id", assumed=True, params=dict(), result=Str, modifies=["fresh"],
              ensures=["uuid_text(result)", "freshid() == old(freshid())"], note="str(uuid4()): well-formed UUID text "
@@ -42,6 +59,9 @@ def as_bytes(ex, p, s):
 REG.contract(
     "nixio.hdf5.h5group.H5Group.copy.<locals>.change_id", props=["C20"],
     params=dict(_=Dyn, igrp=OpaqueOf("h5obj")), modifies=["attr", "fresh"],
+    # type invariant of the input: an id, where present, is stored as text (the in-place `modify` keeps the stored type)
+    requires=["is_none(attr(h5obj_id(igrp), 'entity_id')) or is_bytes(attr(h5obj_id(igrp), 'entity_id')) or "
+              "is_str(attr(h5obj_id(igrp), 'entity_id'))"],
     let="o = h5obj_id(igrp); has = not is_none(attr(o, 'entity_id'))",
     ensures=[
         # EVERY visited object that carries an id - group or dataset (properties are datasets) - gets a fresh one
